@@ -69,8 +69,14 @@ class View:
         return self.st.ghost.get(name)
 
 
+A = z3.ArraySort
+CONTAINER_KEYS = {'flist.count': A(I, I), 'flist.copied_from': A(I, I), 'vec.data.int': A(I, I), 'vec.data.real': A(I, R), 'vec.data.bool': A(I, B),
+                  'set.present': A(I, A(I, B)), 'set.has1': A(I, A(I, B)), 'set.has2': A(I, A(I, B)), 'set.f1': A(I, A(I, I)), 'set.f2': A(I, A(I, I))}
+
+
 def key_sort(self, key):
     if key in ('vec.len', 'vec.epoch', 'set.size', 'flist.len'): return I
+    if key in CONTAINER_KEYS: return CONTAINER_KEYS[key]
     if key in self.base_arrays: return self.base_arrays[key].sort().range()
     parts = key.split('.')
     # class names may contain dots? no. find the longest class prefix
@@ -99,6 +105,15 @@ class Ctx:
     def arg(self, name):
         return self.args[name]
 
+    def local(self, name, state=None):
+        """value of the function's local variable `name` in the post state (prefix / slice contracts)"""
+        st = state or self.post_state or self.pre_state
+        for vid, v in st.env.items():
+            if self.e.var_names.get(vid) == name and not str(vid).startswith(('tmp!', 'glob!', 'param', 'rangeidx!')):
+                if isinstance(v, LVS) and not isinstance(v, ObjLV): return self.e.load(st, v)
+                return v
+        raise Unsupported('contract refers to unknown local variable %s' % name)
+
     def val(self, name, view=None):
         """current value of a by-value / by-const-ref value-type parameter"""
         v = self.args[name]
@@ -109,10 +124,10 @@ class Ctx:
 
 class Contract:
     def __init__(self, qname, prop, pre=None, post=None, assigns=None, safety=(), use=(), signature=None, name=None,
-                 canary=True, unroll=None, setup=None, max_depth=None, name_locals=0, safety_via=None, relational=(), frame=None, on_call=None, ret_model=None, assumed=False, lambda_ordinal=None, slice_loop=None):
+                 canary=True, unroll=None, setup=None, max_depth=None, name_locals=0, safety_via=None, relational=(), frame=None, on_call=None, ret_model=None, assumed=False, lambda_ordinal=None, slice_loop=None, prefix_loop=None):
         self.qname = qname; self.prop = prop; self.pre = pre; self.post = post; self.assigns = assigns
         self.safety = set(safety); self.use = list(use); self.signature = signature
-        self.name = name or qname; self.name_locals = name_locals; self.safety_via = safety_via; self.relational = list(relational); self.frame = frame; self.on_call = on_call; self.ret_model = ret_model; self.assumed = assumed; self.lambda_ordinal = lambda_ordinal; self.slice_loop = slice_loop; self.canary = canary; self.unroll = unroll; self.setup = setup; self.max_depth = max_depth
+        self.name = name or qname; self.name_locals = name_locals; self.safety_via = safety_via; self.relational = list(relational); self.frame = frame; self.on_call = on_call; self.ret_model = ret_model; self.assumed = assumed; self.lambda_ordinal = lambda_ordinal; self.slice_loop = slice_loop; self.prefix_loop = prefix_loop; self.canary = canary; self.unroll = unroll; self.setup = setup; self.max_depth = max_depth
 
     def applies(self, d, eng):
         return self.signature is None or self.signature in d['type']['qualType']
@@ -430,6 +445,20 @@ def run_loop_slice(eng, contract, d, st, fr, result):
     if n is None: raise Unsupported('slice: loop #%d not found in %s' % (contract.slice_loop, contract.qname))
     eng.lazy_locals = True
     try:
+        # every variable of the function declared outside the sliced body gets an arbitrary value (by its type)
+        body_node = n['inner'][7] if n['kind'] == 'CXXForRangeStmt' else n['inner'][-1]
+        def outer_vars(x, acc):
+            if not isinstance(x, dict) or x is body_node: return
+            if x.get('kind') in ('VarDecl',) and x.get('name') and not x['name'].startswith('__'): acc.append(x)
+            if x.get('kind') == 'LambdaExpr': return
+            for c in x.get('inner', []): outer_vars(c, acc)
+        acc = []
+        outer_vars(eng.ast.body_of(d), acc)
+        for vd in acc:
+            if vd['id'] in st.env: continue
+            fake = {'kind': 'DeclRefExpr', 'referencedDecl': {'id': vd['id'], 'kind': 'VarDecl', 'name': vd.get('name'), 'type': vd['type']}}
+            try: eng.ev_DeclRefExpr(fake, st, fr)
+            except Unsupported: pass
         if n['kind'] == 'CXXForRangeStmt':
             inner = n['inner']
             rv = inner[1]['inner'][0]
@@ -522,6 +551,15 @@ def check_function(eng, contract, result):
         if contract.slice_loop is not None:
             outs = run_loop_slice(eng, contract, d, st, fr, result)
             pre_state = result['slice_pre']
+        elif contract.prefix_loop is not None:
+            eng.stop_at_loop = (d['id'], contract.prefix_loop); eng.stopped_states = []
+            try:
+                if d['kind'] == 'CXXConstructorDecl': eng.run_ctor_inits(d, this, st, fr)
+                outs0 = eng.exec_stmt(eng.ast.body_of(d), st, fr)
+            finally:
+                eng.stop_at_loop = None
+            outs = [(s_, ('loop-entry',)) for s_ in eng.stopped_states] + [(s_, o_) for (s_, o_) in outs0 if o_ is not None and o_[0] == 'throw']
+            if not eng.stopped_states: raise Unsupported('prefix contract %s: loop #%d is never reached' % (contract.name, contract.prefix_loop))
         else:
             if d['kind'] == 'CXXConstructorDecl': eng.run_ctor_inits(d, this, st, fr)
             outs = eng.exec_stmt(eng.ast.body_of(d), st, fr)
@@ -535,7 +573,7 @@ def check_function(eng, contract, result):
                 ret = None; outcome = 'throw:' + str(o[1]); site = o[2]
                 if 'noexcept' in d['type']['qualType'] and 'noexcept(false)' not in d['type']['qualType']:
                     eng.obligations.append(Obligation('safety:no-terminate', s.pc, z3.BoolVal(False), 'safety', eng.where(o[2], fr), info={'fn': qn}))
-            elif contract.slice_loop is not None:
+            elif contract.slice_loop is not None or contract.prefix_loop is not None:
                 ret = None; outcome = o[0]; site = None
             else:
                 raise Unsupported('break/continue at function level')
